@@ -60,7 +60,7 @@ def main():
             os.remove(f'{scratch}/{r}')
         ok = False
         for attempt in range(3):
-            t = run('flock /tmp/go-mqtt-test.lock go test -json -vet=off -count=1 -timeout 25m ./... 2>/dev/null', cwd=scratch, timeout=1800)
+            t = run('flock /tmp/go-mqtt-test.lock go test -json -vet=off -count=1 -timeout 4m ./... 2>/dev/null', cwd=scratch, timeout=1800)
             passed = set()
             for l in t.stdout.splitlines():
                 try:
